@@ -83,3 +83,19 @@ def _factorisation_breakdown(plan, viol):
         and int(w.get("pairs_in_last_state", 0)) + 1 > int(w.get("n", 10**9))
         and float(w.get("sy_spread_in_last_state", 0.0)) > 1e10
     )
+
+
+@disc("restored_pair_annihilated_by_reconstruction")
+def _restored_pair_annihilated(plan, viol):
+    """Restart from a checkpoint holding a pair whose step is at rounding level: rebuilding the points
+    by successive subtraction (K11) returns that pair with s.y <= 0 (typically s = 0 exactly), D gets a
+    zero on its diagonal and the factorisation at start-up raises."""
+    w = viol.get("witness", {})
+    exc = str(w.get("exception", ""))
+    return (
+        ("LinAlgError" in exc or "infs or NaNs" in exc)
+        and str(w.get("tag", "")).startswith("restart")
+        and w.get("restored_pair_degenerate") is True
+        and float(w.get("checkpoint_min_relative_step", 1.0)) <= 8 * 2.220446049250313e-16
+    )
+
